@@ -54,7 +54,11 @@ AsArray ==
 EffectiveMem == IF inp.layout = "Nx2" THEN (CASE inp.mem = "C" -> "F" [] inp.mem = "F" -> "C" [] OTHER -> inp.mem) ELSE inp.mem
 Orient == /\ pc = "orient" /\ pc' = "contig" /\ UNCHANGED <<inp, view, abuf, callerBad, analyzerBad>>
 
+(* the same as pure operators of a scenario record (used by InputTrace.tla) *)
+EffectiveMemOf(i) == IF i.layout = "Nx2" THEN (CASE i.mem = "C" -> "F" [] i.mem = "F" -> "C" [] OTHER -> i.mem) ELSE i.mem
+AliasesOf(i) == i.layout \notin {"list", "tuple"} /\ i.dtype = "f64" /\ EffectiveMemOf(i) = "C"
 Aliases == view = "caller" /\ inp.dtype = "f64" /\ EffectiveMem = "C"
+AliasDefinitionsAgree == pc = "contig" => (Aliases <=> AliasesOf(inp))
 MakeContiguous ==
     /\ pc = "contig"
     /\ abuf' = IF Aliases THEN "caller" ELSE "own"
